@@ -143,7 +143,12 @@ def check_fake(fname, positional, kwargs, mode, out):
     fn = FUNCS[fname]
     if COUNTING[0]:
         STATS["evaluations"] += 1
-    fenv = {"FAKE_MODE": mode, "FAKE_OUT": out, "FAKE_ERR": "boom\n" if mode != "exit:0" else ""}
+    # a successful zerv may still have written log lines to stderr (swallowed git errors are logged
+    # at ERROR level): with status 0 the text on stdout is the result, whatever stderr holds.
+    # Which stderr a successful stand-in writes is derived from the text it prints, so that a
+    # replayed case is the same case.
+    noisy = ("", "\x1b[2m2026-01-01T00:00:00.000000Z\x1b[0m \x1b[31mERROR\x1b[0m Git command failed: git rev-list -n 1 v3.0.0 - fatal: ambiguous argument\n", "Error: something\n", " WARN shallow clone detected\n")
+    fenv = {"FAKE_MODE": mode, "FAKE_OUT": out, "FAKE_ERR": "boom\n" if mode != "exit:0" else noisy[len(out) % len(noisy)]}
     ref = _real_run([FAKE_BIN], stdin=subprocess.DEVNULL, capture_output=True, text=True, check=False, env=dict(ENV, **fenv), cwd="/")
     CURRENT_BIN[0] = FAKE_BIN
     EXTRA_ENV.update(fenv)
@@ -383,6 +388,9 @@ def run_property(tier, seed_value):
         for fname in sorted(FUNCS):
             for mode in ("sig:6", "sig:9", "sig:15", "exit:1", "exit:0"):
                 guarded_fake(fname, ["1.2.3"] if fname in ("check", "render") else [], dict(BASE[fname]), mode, "1.2.3\n")
+            # success with an ERROR log line on stderr, and success with nothing / only white space on stdout
+            for out in ("1.2.3-rc.1+b\n", "", "\n"):
+                guarded_fake(fname, ["1.2.3"] if fname in ("check", "render") else [], dict(BASE[fname]), "exit:0", out)
     except Violation:
         violations.append(dict(FAIL)); COUNTING[0] = True
     except Exception:
